@@ -12,11 +12,11 @@ TRUSTED_BASE = [
     "harness: every case runs under std::panic::catch_unwind (a panic is the output PANIC -> 999) and the codec-driving engines under a watchdog thread (no result within 4 s -> 995)",
 ]
 ASSUMPTIONS = [
-    "memory growth is observed indirectly: the incremental readers' buffers are bounded by theorem (HTTP/1.1 head 1024 + 64, TLS prebuffer 16 KiB, UDP/ICMP decoders hold at most one record header) and the fuzz run checks that oversized inputs are refused rather than accumulated",
+    "memory growth is observed indirectly: the incremental readers' buffers are bounded by theorem (HTTP/1.1 head 1024 + 64, TLS prebuffer 16 KiB, UDP/ICMP decoders hold at most one record header, the chunk-size line of a forwarded response below its stated limit) and the fuzz run checks that oversized inputs are refused rather than accumulated; the origin's response head and chunk-size lines are fed without end (kind bound:c17_run): the exchange has to end with an error before 256 KiB / 64 KiB are taken, and within the bound the code states (constants read by the translator) plus two pieces",
     "rules and credentials files are start-up inputs: their parsers are driven by C04 / C13 generators plus byte-level mutations here",
 ]
 RULE = ("for each door {UDP stream decoder, ICMP stream decoder, IPv4/IPv6 header skipping, ICMP message parsing, SOCKS5 relayed datagram and server replies, ClientHello "
-        "extraction and peeking, HTTP/1.1 codec, forwarded origin response, credentials file, rules}: the valid cases of the owning property, each mutated by bit flips, "
+        "extraction and peeking, HTTP/1.1 codec, forwarded origin response (plus response heads and chunk-size lines that never end), credentials file, rules}: the valid cases of the owning property, each mutated by bit flips, "
         "truncation at every field boundary class, length fields set to 0 / 1 / max, byte insertion and duplication, all-0x00 / all-0xff runs, and re-segmentation "
         "(1-byte pieces, 2 pieces); plus every string of length <= 3 over {0x00, 0x01, 0x16, 0x45, 0x60, 0xff} for the packet parsers; non-trivial = mutated; distinct = distinct input")
 
@@ -106,6 +106,8 @@ def gen_cases(rng, ctx):
                 continue
             l = line(eng, toks)
             cases.append(Case(l, l if (eng in MODEL_TOTAL) else None, kind="mutated:" + eng, nontrivial=True, meta={"engine": eng}))
+    # origins that never finish a response head / a chunk-size line (what the forwarded stream holds must stay within a bound)
+    cases += importlib.import_module("props.c17").bound_cases(rng, thorough)
     # exhaustive short strings over a reduced alphabet for the packet parsers
     alpha = [0x00, 0x01, 0x16, 0x45, 0x60, 0xff]
     shorts = [[]] + [[a] for a in alpha] + [[a, b] for a in alpha for b in alpha] + [[a, b, c] for a in alpha for b in alpha for c in alpha]
@@ -123,6 +125,8 @@ def judge(case, impl, model, spec, ctx):
         return [("violation", "%s: the endpoint code panicked on this input" % eng)]
     if impl.split()[0] == "995":
         return [("violation", "%s: no result within the watchdog time: the code loops without consuming input" % eng)]
+    if case.kind == "bound:c17_run":
+        return importlib.import_module("props.c17").judge_bound(case, impl)
     if model is not None and model.split()[0] not in ("9",) and impl != model:
         if eng == "c12_extract" and model.split()[0] == "9":
             return []
